@@ -30,13 +30,19 @@ Proof.
   apply IH. congruence.
 Qed.
 
+Lemma length_upd_nth {A} (x : A) l : forall n, length (upd_nth n x l) = length l.
+Proof.
+  induction l as [|y r IH]; intros n; [destruct n; reflexivity|].
+  destruct n; cbn [upd_nth length]; [reflexivity|]. rewrite IH. reflexivity.
+Qed.
+
 (* ------------------------------------------------ get reads the kernel *)
 Theorem get_reads_kernel k pid p : wf_kernelb k = true -> kget pid k = Some p -> wf_procb k p = true -> pid <> 0 ->
   run_req pid (Nice None) k = (Val (RInt (p_nice p)), k)
-  /\ run_req pid (Ionice None None) k = (Val (RPair (p_ioprio p / 8192) (p_ioprio p mod 8192)), k)
+  /\ run_req pid (Ionice None None) k = (Val (RPair (reported_ioprio k p / 8192) (reported_ioprio k p mod 8192)), k)
   /\ run_req pid (Affinity None) k = (Val (RList (p_mask p)), k)
   /\ forall res s h, 0 <= res < 16 -> nth_error (p_rlim p) (Z.to_nat res) = Some (s, h) ->
-       run_req pid (Rlimit res None) k = (Val (RPair s h), k).
+       run_req pid (Rlimit res None) k = (Val (RPair (rlim2py s) (rlim2py h)), k).
 Proof.
   intros Hk Hg Hwf Hpid.
   assert (M : forall r exp, spec_req pid r k = Some exp -> run_req pid r k = exp).
@@ -53,20 +59,33 @@ Qed.
 
 (* ------------------------------------------------ nice *)
 Theorem nice_set_then_get k pid p v : kget pid k = Some p -> -20 <= v <= 19 ->
+  p_nice p <= v \/ can_nice k p v = true ->
   let k' := kupd pid (set_nice v) k in
   run_req pid (Nice (Some v)) k = (Val RNone, k')
   /\ kget pid k' = Some (set_nice v p)
   /\ (forall q, q <> pid -> kget q k' = kget q k)
   /\ run_req pid (Nice None) k' = (Val (RInt v), k').
 Proof.
-  intros Hg Hv k'.
+  intros Hg Hv Hperm k'.
   assert (Hg' : kget pid k' = Some (set_nice v p)) by (unfold k'; rewrite kget_kupd_same, Hg; reflexivity).
   repeat split.
   - apply (meets_nice k pid p _ _ Hg). unfold spec_req. rewrite Hg.
-    replace ((-20 <=? v) && (v <=? 19)) with true by (symmetry; apply andb_true_iff; split; apply Z.leb_le; lia). reflexivity.
+    replace ((-20 <=? v) && (v <=? 19)) with true by (symmetry; apply andb_true_iff; split; apply Z.leb_le; lia).
+    replace ((p_nice p <=? v) || can_nice k p v) with true; [reflexivity|].
+    symmetry. apply orb_true_iff. destruct Hperm as [H|H]; [left; apply Z.leb_le; exact H|right; exact H].
   - exact Hg'.
   - intros q Hq. apply kget_kupd_other. exact Hq.
   - apply (meets_nice k' pid _ _ _ Hg'). unfold spec_req, spec_get. rewrite Hg'. reflexivity.
+Qed.
+
+(* lowering the nice value without CAP_SYS_NICE and beyond RLIMIT_NICE: AccessDenied carrying
+   the pid, nothing changed *)
+Theorem nice_denied k pid p v : kget pid k = Some p -> fits_int v = true ->
+  clamp_nice v < p_nice p -> can_nice k p (clamp_nice v) = false ->
+  run_req pid (Nice (Some v)) k = (Exc AccessDenied, k) /\ exc_pid pid AccessDenied = Some pid.
+Proof.
+  intros Hg Hf Hlt Hc. split; [|reflexivity]. unfold run_req, nice, c_setpriority, sys_setpriority. rewrite Hf, Hg, Hc.
+  replace (clamp_nice v <? p_nice p) with true by (symmetry; apply Z.ltb_lt; exact Hlt). reflexivity.
 Qed.
 
 Theorem getpriority_minus_one k pid p : kget pid k = Some p -> p_nice p = -1 ->
@@ -78,20 +97,24 @@ Qed.
 (* ------------------------------------------------ ionice *)
 Definition level_of (v : option Z) : Z := match v with Some x => x | None => 0 end.
 
-Theorem ionice_set_then_get k pid p c v : kget pid k = Some p ->
-  0 <= c <= 3 -> 0 <= level_of v <= 7 -> (c = 0 \/ c = 3 -> v = None) ->
-  let k' := kupd pid (set_ioprio (c * 8192 + level_of v)) k in
+Theorem ionice_set_then_get k pid p c v : kget pid k = Some p -> -20 <= p_nice p <= 19 ->
+  0 <= c <= 3 -> 0 <= level_of v <= 7 -> (c = 0 \/ c = 3 -> level_of v = 0) ->
+  (c = 1 -> k_cap_admin k || k_cap_nice k = true) ->
+  let raw := c * 8192 + level_of v in
+  let k' := kupd pid (set_ioprio raw) k in
+  let w := reported_ioprio k' (set_ioprio raw p) in
   run_req pid (Ionice (Some c) v) k = (Val RNone, k')
-  /\ kget pid k' = Some (set_ioprio (c * 8192 + level_of v) p)
+  /\ kget pid k' = Some (set_ioprio raw p)
   /\ (forall q, q <> pid -> kget q k' = kget q k)
-  /\ run_req pid (Ionice None None) k' = (Val (RPair c (level_of v)), k').
+  /\ run_req pid (Ionice None None) k' = (Val (RPair (w / 8192) (w mod 8192)), k')
+  /\ (c <> 0 \/ k_ioget_effective k = false -> w = raw /\ w / 8192 = c /\ w mod 8192 = level_of v).
 Proof.
-  intros Hg Hc Hl H03 k'.
-  assert (Hg' : kget pid k' = Some (set_ioprio (c * 8192 + level_of v) p)) by (unfold k'; rewrite kget_kupd_same, Hg; reflexivity).
-  assert (Hio : 0 <= c * 8192 + level_of v < 32768) by lia.
-  repeat split.
-  - assert (Hr : 0 <= 0 < 32768) by lia.
-    unfold run_req, ionice, ionice_set. fold (level_of v).
+  intros Hg Hn Hc Hl H03 Hperm raw k' w.
+  assert (Hg' : kget pid k' = Some (set_ioprio raw p)) by (unfold k'; rewrite kget_kupd_same, Hg; reflexivity).
+  assert (Hio : 0 <= raw < 32768) by (unfold raw; lia).
+  destruct (ioprio_valid_ok c (level_of v)) as [Hp [Hv Hs]]; [lia|lia|exact H03|].
+  split; [|split; [exact Hg'|split; [intros q Hq; apply kget_kupd_other; exact Hq|split]]].
+  - unfold run_req, ionice, ionice_set. fold (level_of v).
     assert (Hsw : negb (level_of v =? 0) && ((c =? 3) || (c =? 0)) = false).
     { destruct (Z.eq_dec c 0) as [->|N0]; [rewrite H03 by lia; reflexivity|].
       destruct (Z.eq_dec c 3) as [->|N3]; [rewrite H03 by lia; reflexivity|].
@@ -102,22 +125,44 @@ Proof.
       by (symmetry; apply orb_false_iff; split; apply Z.ltb_ge; lia).
     replace ((0 <=? c) && (c <=? 3)) with true by (symmetry; apply andb_true_iff; split; apply Z.leb_le; lia).
     cbn [negb].
-    destruct (ioprio_valid_ok c (level_of v)) as [Hp Hv]; [lia|lia| |].
-    { intros Hc0. rewrite (H03 Hc0). reflexivity. }
     unfold c_ioprio_set, fits_int.
     replace ((-2147483648 <=? c) && (c <=? 2147483647)) with true
       by (symmetry; apply andb_true_iff; split; apply Z.leb_le; lia).
     replace ((-2147483648 <=? level_of v) && (level_of v <=? 2147483647)) with true
       by (symmetry; apply andb_true_iff; split; apply Z.leb_le; lia).
-    cbn [andb]. rewrite Hp. unfold sys_ioprio_set. rewrite Hg, Hv. reflexivity.
-  - exact Hg'.
-  - intros q Hq. apply kget_kupd_other. exact Hq.
-  - unfold run_req, ionice. rewrite (ionice_get_ok k' pid _ Hg' Hio). cbn [p_ioprio set_ioprio].
-    assert (D : (c * 8192 + level_of v) / 8192 = c)
-      by (rewrite Z.div_add_l by lia; rewrite Z.div_small by lia; lia).
-    assert (M : (c * 8192 + level_of v) mod 8192 = level_of v)
-      by (rewrite Z.add_comm, Z.mod_add by lia; apply Z.mod_small; lia).
-    rewrite D, M. reflexivity.
+    cbn [andb]. rewrite Hp. unfold sys_ioprio_set, ioprio_perm. rewrite Hg, Hs, Hv.
+    replace (negb (c =? 1) || k_cap_admin k || k_cap_nice k) with true; [reflexivity|].
+    symmetry. destruct (Z.eq_dec c 1) as [E|N].
+    + specialize (Hperm E). rewrite <- orb_assoc, Hperm. apply orb_true_r.
+    + replace (c =? 1) with false by (symmetry; apply Z.eqb_neq; exact N). reflexivity.
+  - unfold run_req, ionice.
+    rewrite (ionice_get_ok k' pid _ Hg'); [reflexivity|].
+    apply reported_range; cbn [p_nice p_ioprio set_ioprio]; [exact Hn|exact Hio].
+  - intros Hleg. assert (W : w = raw).
+    { unfold w, reported_ioprio. cbn [p_ioprio set_ioprio p_nice]. fold raw. unfold raw at 1. rewrite Hs.
+      change (k_ioget_effective k') with (k_ioget_effective k).
+      destruct Hleg as [N|E].
+      - replace (c =? 0) with false by (symmetry; apply Z.eqb_neq; exact N). rewrite andb_false_r. reflexivity.
+      - rewrite E. reflexivity. }
+    split; [exact W|]. rewrite W. unfold raw. split.
+    + rewrite Z.div_add_l by lia. rewrite Z.div_small by lia. lia.
+    + rewrite Z.add_comm, Z.mod_add by lia. apply Z.mod_small. lia.
+Qed.
+
+(* the RT class without CAP_SYS_ADMIN / CAP_SYS_NICE: AccessDenied carrying the pid, nothing changed *)
+Theorem ionice_rt_denied k pid p v : kget pid k = Some p -> 0 <= level_of v <= 7 ->
+  k_cap_admin k = false -> k_cap_nice k = false ->
+  run_req pid (Ionice (Some 1) v) k = (Exc AccessDenied, k) /\ exc_pid pid AccessDenied = Some pid.
+Proof.
+  intros Hg Hl Ha Hn. split; [|reflexivity].
+  destruct (ioprio_valid_ok 1 (level_of v)) as [Hp [Hv Hs]]; [lia|lia|lia|].
+  unfold run_req, ionice, ionice_set. fold (level_of v). cbn [Z.eqb orb andb]. rewrite andb_false_r.
+  replace ((level_of v <? 0) || (7 <? level_of v)) with false
+    by (symmetry; apply orb_false_iff; split; apply Z.ltb_ge; lia).
+  cbn [Z.leb andb negb]. unfold c_ioprio_set, fits_int.
+  replace ((-2147483648 <=? level_of v) && (level_of v <=? 2147483647)) with true
+    by (symmetry; apply andb_true_iff; split; apply Z.leb_le; lia).
+  cbn [Z.leb andb]. rewrite Hp. unfold sys_ioprio_set, ioprio_perm. rewrite Hg, Hs, Ha, Hn. reflexivity.
 Qed.
 
 (* ------------------------------------------------ cpu_affinity *)
@@ -167,32 +212,66 @@ Proof.
 Qed.
 
 (* ------------------------------------------------ rlimit *)
+(* the Python <-> rlim_t representation: -1 is RLIM_INFINITY = 2^64-1, both directions lossless *)
+Theorem rlim_roundtrip :
+  u64 (-1) = RLIM_INFINITY /\ rlim2py RLIM_INFINITY = -1
+  /\ (forall v, fits_long v = true -> 0 <= u64 v <= RLIM_INFINITY /\ rlim2py (u64 v) = v)
+  /\ (forall u, 0 <= u <= RLIM_INFINITY -> fits_long (rlim2py u) = true /\ u64 (rlim2py u) = u).
+Proof.
+  split; [reflexivity|]. split; [reflexivity|]. unfold u64, rlim2py, fits_long, RLIM_INFINITY.
+  change (2 ^ 64) with 18446744073709551616. change (2 ^ 63) with 9223372036854775808. split.
+  - intros v H. apply andb_split in H. destruct H as [A B]. apply Z.leb_le in A. apply Z.ltb_lt in B.
+    destruct (v <? 0) eqn:E; [apply Z.ltb_lt in E|apply Z.ltb_ge in E].
+    + replace (9223372036854775808 <=? v + 18446744073709551616) with true by (symmetry; apply Z.leb_le; lia). lia.
+    + replace (9223372036854775808 <=? v) with false by (symmetry; apply Z.leb_gt; lia). lia.
+  - intros u H. destruct (9223372036854775808 <=? u) eqn:E; [apply Z.leb_le in E|apply Z.leb_gt in E].
+    + replace (u - 18446744073709551616 <? 0) with true by (symmetry; apply Z.ltb_lt; lia).
+      split; [|lia]. apply andb_true_iff. split; [apply Z.leb_le|apply Z.ltb_lt]; lia.
+    + replace (u <? 0) with false by (symmetry; apply Z.ltb_ge; lia).
+      split; [|lia]. apply andb_true_iff. split; [apply Z.leb_le|apply Z.ltb_lt]; lia.
+Qed.
+
 Theorem rlimit_set_then_get k pid p res s h : kget pid k = Some p -> wf_procb k p = true -> pid <> 0 ->
   0 <= res < 16 -> fits_long s = true -> fits_long h = true -> u64 s <= u64 h ->
-  let l' := upd_nth (Z.to_nat res) (s, h) (p_rlim p) in
-  let k' := kupd pid (fun p => set_rlim (upd_nth (Z.to_nat res) (s, h) (p_rlim p)) p) k in
+  (res = RLIMIT_NOFILE -> u64 h <= k_nr_open k) ->
+  (forall os om, nth_error (p_rlim p) (Z.to_nat res) = Some (os, om) -> u64 h <= om \/ k_cap_resource k = true) ->
+  let l' := upd_nth (Z.to_nat res) (u64 s, u64 h) (p_rlim p) in
+  let k' := kupd pid (fun p => set_rlim (upd_nth (Z.to_nat res) (u64 s, u64 h) (p_rlim p)) p) k in
   run_req pid (Rlimit res (Some [s; h])) k = (Val RNone, k')
   /\ kget pid k' = Some (set_rlim l' p)
-  /\ nth_error l' (Z.to_nat res) = Some (s, h)
+  /\ nth_error l' (Z.to_nat res) = Some (u64 s, u64 h)
   /\ (forall r, r <> Z.to_nat res -> nth_error l' r = nth_error (p_rlim p) r)
   /\ (forall q, q <> pid -> kget q k' = kget q k)
   /\ run_req pid (Rlimit res None) k' = (Val (RPair s h), k').
 Proof.
-  intros Hg Hwf Hpid Hres Hs Hh Hsh l' k'. pose proof (wf_procb_facts k p Hwf) as F.
+  intros Hg Hwf Hpid Hres Hs Hh Hsh Hnof Hraise l' k'. pose proof (wf_procb_facts k p Hwf) as F.
   assert (Hg' : kget pid k' = Some (set_rlim l' p)) by (unfold k'; rewrite kget_kupd_same, Hg; reflexivity).
   assert (Hok : res_ok res = true).
   { unfold res_ok, RLIM_NLIMITS. apply andb_true_iff. split; [apply Z.leb_le|apply Z.ltb_lt]; lia. }
-  assert (Hn : nth_error l' (Z.to_nat res) = Some (s, h)).
-  { unfold l'. apply nth_error_upd_same. rewrite (wf_rlim_len p F). lia. }
+  assert (Hlt : (Z.to_nat res < length (p_rlim p))%nat) by (rewrite (wf_rlim_len p F); lia).
+  assert (Hn : nth_error l' (Z.to_nat res) = Some (u64 s, u64 h)).
+  { unfold l'. apply nth_error_upd_same. exact Hlt. }
+  destruct rlim_roundtrip as [_ [_ [RT _]]].
   repeat split.
-  - apply (meets_rlimit k pid p _ _ _ Hg Hpid). unfold spec_req. rewrite Hg, Hok, Hs, Hh.
-    replace (u64 s <=? u64 h) with true by (symmetry; apply Z.leb_le; exact Hsh). reflexivity.
+  - apply (meets_rlimit k pid p _ _ _ Hg Hpid (wf_rlim_len p F)). unfold spec_req. rewrite Hg, Hok, Hs, Hh.
+    replace (u64 s <=? u64 h) with true by (symmetry; apply Z.leb_le; exact Hsh).
+    replace (negb (res =? RLIMIT_NOFILE) || (u64 h <=? k_nr_open k)) with true.
+    2: { symmetry. destruct (Z.eq_dec res RLIMIT_NOFILE) as [E|N].
+         - replace (u64 h <=? k_nr_open k) with true by (symmetry; apply Z.leb_le; apply Hnof; exact E). apply orb_true_r.
+         - replace (res =? RLIMIT_NOFILE) with false by (symmetry; apply Z.eqb_neq; exact N). reflexivity. }
+    destruct (nth_error (p_rlim p) (Z.to_nat res)) as [[os om]|] eqn:En; [|apply nth_error_None in En; lia].
+    rewrite (nth_nth_error _ _ (0, 0) _ En). cbn [snd andb].
+    replace ((u64 h <=? om) || k_cap_resource k) with true; [reflexivity|].
+    symmetry. apply orb_true_iff. destruct (Hraise os om eq_refl) as [H|H]; [left; apply Z.leb_le; exact H|right; exact H].
   - exact Hg'.
   - exact Hn.
   - intros r Hr. unfold l'. apply nth_error_upd_other. congruence.
   - intros q Hq. apply kget_kupd_other. exact Hq.
-  - apply (meets_rlimit k' pid _ _ _ _ Hg' Hpid). unfold spec_req, spec_get. rewrite Hg', Hok.
-    cbn [p_rlim set_rlim]. rewrite Hn. reflexivity.
+  - assert (Hlen' : length (p_rlim (set_rlim l' p)) = 16%nat).
+    { cbn [p_rlim set_rlim]. unfold l'. rewrite length_upd_nth. exact (wf_rlim_len p F). }
+    apply (meets_rlimit k' pid _ _ _ _ Hg' Hpid Hlen'). unfold spec_req, spec_get. rewrite Hg', Hok.
+    cbn [p_rlim set_rlim]. rewrite Hn.
+    destruct (RT s Hs) as [_ ->]. destruct (RT h Hh) as [_ ->]. reflexivity.
 Qed.
 
 (* ------------------------------------------------ invalid requests *)
@@ -213,10 +292,10 @@ Theorem invalid_rejected k pid p : kget pid k = Some p -> wf_procb k p = true ->
 Proof.
   intros Hg Hwf Hpid. pose proof (wf_procb_facts k p Hwf) as F.
   split; [|split; [|split; [|split; [|split]]]].
-  - intros c v Hv. apply (meets_ionice k pid p _ _ _ Hg (wf_io p F)). unfold spec_req. rewrite Hg.
+  - intros c v Hv. apply (meets_ionice k pid p _ _ _ Hg (reported_range k p (wf_nice p F) (wf_io p F))). unfold spec_req. rewrite Hg.
     replace ((v <? 0) || (7 <? v)) with true; [reflexivity|].
     symmetry. apply orb_true_iff. destruct Hv; [left|right]; apply Z.ltb_lt; lia.
-  - intros c v Hc Hv. apply (meets_ionice k pid p _ _ _ Hg (wf_io p F)). unfold spec_req. rewrite Hg.
+  - intros c v Hc Hv. apply (meets_ionice k pid p _ _ _ Hg (reported_range k p (wf_nice p F) (wf_io p F))). unfold spec_req. rewrite Hg.
     destruct ((v <? 0) || (7 <? v)); [reflexivity|].
     replace (((c =? 0) || (c =? 3)) && negb (v =? 0)) with true; [reflexivity|].
     symmetry. apply andb_true_iff. split.
@@ -235,15 +314,17 @@ Proof.
     unfold spec_req. rewrite Hg, Hall.
     replace (none_in (c :: cs) (p_elig p)) with true; [reflexivity|].
     symmetry. unfold none_in. apply forallb_forall. intros x Hx. apply negb_true_iff. apply memz_false. apply Hout. exact Hx.
-  - intros res l Hl. apply (meets_rlimit k pid p _ _ _ Hg Hpid). unfold spec_req. rewrite Hg.
+  - intros res l Hl. apply (meets_rlimit k pid p _ _ _ Hg Hpid (wf_rlim_len p F)). unfold spec_req. rewrite Hg.
     destruct l as [|s [|h [|x r]]]; try reflexivity. cbn [length] in Hl. congruence.
 Qed.
 
 (* ------------------------------------------------ the repaired defects: legacy code refuted, current code right *)
-Definition rl0 : list (Z * Z) := repeat (-1, -1) 16.
+Definition rl0 : list (Z * Z) := repeat (RLIM_INFINITY, RLIM_INFINITY) 16.
 Definition mkp (mask elig : list Z) : proc :=
   {| p_nice := 0; p_ioprio := 0; p_mask := mask; p_elig := elig; p_rlim := rl0 |}.
-Definition mkk (p : proc) (ncpu : Z) : kernel := {| k_procs := [(10, p)]; k_ncpu := ncpu; k_nr_cpu_ids := 64 |}.
+Definition mkk (p : proc) (ncpu : Z) : kernel :=
+  {| k_procs := [(10, p)]; k_ncpu := ncpu; k_nr_cpu_ids := 64; k_cap_nice := true; k_cap_admin := true;
+     k_cap_resource := true; k_nr_open := 1048576; k_ioget_effective := false |}.
 
 (* LEGACY: a cpuset of two ranges: only the first range was selected *)
 Theorem legacy_empty_affinity_refuted_multirange :
@@ -294,8 +375,10 @@ Qed.
 (* the hypotheses of the theorems above are satisfiable by a non-trivial state *)
 Definition ex_p : proc :=
   {| p_nice := 3; p_ioprio := 16389; p_mask := [2; 5]; p_elig := [2; 3; 5; 8; 9];
-     p_rlim := [(0,0);(1,2);(-1,-1);(5,-1);(0,0);(0,0);(0,0);(1024,4096);(0,0);(0,0);(0,0);(0,0);(0,0);(0,0);(0,0);(7,-1)] |}.
-Definition ex_k : kernel := {| k_procs := [(7, mkp [0] [0; 1]); (4242, ex_p)]; k_ncpu := 8; k_nr_cpu_ids := 128 |}.
+     p_rlim := [(0,0);(1,2);(RLIM_INFINITY,RLIM_INFINITY);(5,RLIM_INFINITY);(0,0);(0,0);(0,0);(1024,4096);(0,0);(0,0);(0,0);(0,0);(0,0);(0,0);(0,0);(7,RLIM_INFINITY)] |}.
+Definition ex_k : kernel :=
+  {| k_procs := [(7, mkp [0] [0; 1]); (4242, ex_p)]; k_ncpu := 8; k_nr_cpu_ids := 128; k_cap_nice := false; k_cap_admin := false;
+     k_cap_resource := false; k_nr_open := 1048576; k_ioget_effective := true |}.
 Example hypotheses_satisfiable :
   wf_kernelb ex_k = true /\ kget 4242 ex_k = Some ex_p /\ wf_procb ex_k ex_p = true
   /\ (exists exp, spec_req 4242 (Affinity (Some [])) ex_k = Some exp)
@@ -332,3 +415,81 @@ Example wide_cpu_numbers_name_nothing :
   c_build_set [2 ^ 31; 2 ^ 32; 2 ^ 32 + 1; 2 ^ 62; 2 ^ 63 - 1; -5] = Val []
   /\ c_build_set [2 ^ 32; 0] = Val [0].
 Proof. split; vm_compute; reflexivity. Qed.
+
+(* ------------------------------------------------ rlimit: denied, malformed *)
+Lemma rlimit_set_unfold k pid p res s h : kget pid k = Some p -> pid <> 0 -> 0 <= res < 16 ->
+  fits_long s = true -> fits_long h = true ->
+  run_req pid (Rlimit res (Some [s; h])) k =
+  match sys_prlimit_set pid res (u64 s) (u64 h) k with
+  | (SOk _, k') => (Val RNone, k')
+  | (SErr EINVAL, _) => (Exc ValueError, k)
+  | (SErr e, _) => (Exc (wrap e), k)
+  end.
+Proof.
+  intros Hg Hp Hres Hs Hh. unfold run_req, rlimit.
+  replace (pid =? 0) with false by (symmetry; apply Z.eqb_neq; exact Hp). cbn [length Nat.eqb negb].
+  assert (Hok : res_ok res = true).
+  { unfold res_ok, RLIM_NLIMITS. apply andb_true_iff. split; [apply Z.leb_le|apply Z.ltb_lt]; lia. }
+  unfold py_prlimit. rewrite (res_ok_fits res Hok), Hok, Hs, Hh. reflexivity.
+Qed.
+
+(* raising the hard limit without CAP_SYS_RESOURCE, or RLIMIT_NOFILE above fs.nr_open *)
+Theorem rlimit_denied k pid p res s h os om : kget pid k = Some p -> pid <> 0 -> 0 <= res < 16 ->
+  fits_long s = true -> fits_long h = true -> u64 s <= u64 h ->
+  nth_error (p_rlim p) (Z.to_nat res) = Some (os, om) ->
+  (res = RLIMIT_NOFILE /\ k_nr_open k < u64 h) \/ (om < u64 h /\ k_cap_resource k = false) ->
+  run_req pid (Rlimit res (Some [s; h])) k = (Exc AccessDenied, k) /\ exc_pid pid AccessDenied = Some pid.
+Proof.
+  intros Hg Hp Hres Hs Hh Hsh Hn Hd. split; [|reflexivity].
+  rewrite (rlimit_set_unfold k pid p res s h Hg Hp Hres Hs Hh). unfold sys_prlimit_set. rewrite Hg.
+  replace (res_ok res) with true
+    by (symmetry; unfold res_ok, RLIM_NLIMITS; apply andb_true_iff; split; [apply Z.leb_le|apply Z.ltb_lt]; lia).
+  cbn [negb]. replace (u64 h <? u64 s) with false by (symmetry; apply Z.ltb_ge; lia).
+  destruct ((res =? RLIMIT_NOFILE) && (k_nr_open k <? u64 h)) eqn:E; [reflexivity|].
+  rewrite Hn. destruct Hd as [[E1 E2]|[E1 E2]].
+  - exfalso. apply andb_false_iff in E. destruct E as [E|E]; [apply Z.eqb_neq in E; congruence|apply Z.ltb_ge in E; lia].
+  - rewrite E2. replace (om <? u64 h) with true by (symmetry; apply Z.ltb_lt; exact E1). reflexivity.
+Qed.
+
+(* soft above hard (as rlim_t): the kernel's EINVAL surfaces as ValueError, nothing changed *)
+Theorem rlimit_soft_above_hard k pid p res s h : kget pid k = Some p -> pid <> 0 -> 0 <= res < 16 ->
+  fits_long s = true -> fits_long h = true -> u64 h < u64 s ->
+  run_req pid (Rlimit res (Some [s; h])) k = (Exc ValueError, k).
+Proof.
+  intros Hg Hp Hres Hs Hh Hsh.
+  rewrite (rlimit_set_unfold k pid p res s h Hg Hp Hres Hs Hh). unfold sys_prlimit_set. rewrite Hg.
+  replace (res_ok res) with true
+    by (symmetry; unfold res_ok, RLIM_NLIMITS; apply andb_true_iff; split; [apply Z.leb_le|apply Z.ltb_lt]; lia).
+  cbn [negb]. replace (u64 h <? u64 s) with true by (symmetry; apply Z.ltb_lt; exact Hsh). reflexivity.
+Qed.
+
+(* a value outside a C long long (e.g. 2^63 .. 2^64-1, which is how C spells RLIM_INFINITY): OverflowError *)
+Theorem rlimit_value_overflow k pid res s h : pid <> 0 -> 0 <= res < 16 ->
+  fits_long s = false \/ fits_long h = false ->
+  run_req pid (Rlimit res (Some [s; h])) k = (Exc OverflowError, k).
+Proof.
+  intros Hp Hres Hf. unfold run_req, rlimit.
+  replace (pid =? 0) with false by (symmetry; apply Z.eqb_neq; exact Hp). cbn [length Nat.eqb negb].
+  assert (Hok : res_ok res = true).
+  { unfold res_ok, RLIM_NLIMITS. apply andb_true_iff. split; [apply Z.leb_le|apply Z.ltb_lt]; lia. }
+  unfold py_prlimit. rewrite (res_ok_fits res Hok), Hok. cbn [negb].
+  replace (fits_long s && fits_long h) with false; [reflexivity|].
+  symmetry. apply andb_false_iff. exact Hf.
+Qed.
+
+(* an int instead of a sequence: TypeError (from len()), no system call *)
+Theorem rlimit_scalar_typeerror k pid res v : pid <> 0 -> run_req pid (RlimitScalar res v) k = (Exc TypeError, k).
+Proof.
+  intros Hp. unfold run_req, rlimit_scalar. replace (pid =? 0) with false by (symmetry; apply Z.eqb_neq; exact Hp). reflexivity.
+Qed.
+
+(* negative values other than -1 are large unsigned limits: (-5, -3) is a valid pair and reads
+   back as (-5, -3); (-3, -5) has soft above hard *)
+Example rlimit_negative_values :
+  u64 (-5) = 2 ^ 64 - 5
+  /\ fst (run_req 4242 (Rlimit 3 (Some [-5; -3])) ex_k) = Val RNone
+  /\ fst (run_req 4242 (Rlimit 3 None) (snd (run_req 4242 (Rlimit 3 (Some [-5; -3])) ex_k))) = Val (RPair (-5) (-3))
+  /\ run_req 4242 (Rlimit 3 (Some [-3; -5])) ex_k = (Exc ValueError, ex_k)
+  /\ run_req 4242 (Rlimit 3 (Some [5; 2 ^ 64 - 1])) ex_k = (Exc OverflowError, ex_k)
+  /\ run_req 4242 (Rlimit 7 (Some [5; 8192])) ex_k = (Exc AccessDenied, ex_k).
+Proof. repeat split; vm_compute; reflexivity. Qed.
